@@ -256,9 +256,42 @@ JUMP_COUNT_RULES = member_rules(
              "    __CPROVER_loop_invariant(g_exp == g_exp0 + (g_count0 & ((1ull << (2 * jump_idx)) - 1)) + (u128)i * ((u128)1 << (2 * jump_idx)))\n"
              "    __CPROVER_decreases(num_jump - i)\n"]),
         Rule(r"jump_poly_arr\.size\(\)", "32u", 1, note="Array<JumpPoly,32>::size() (bound in bindings.cc)"),
-        Rule(r"this->jump\(jump_poly_arr\[jump_idx\]\);", "XE_jump_poly(self, &jump_poly_arr->d[jump_idx]);", 1, note="member call with Array element reference"),
+        Rule(r"this->jump\(jump_poly_arr\[([^\[\]]*)\]\);", r"XE_jump_poly(self, &jump_poly_arr->d[\1]);", "*", note="member call with Array element reference"),
     ]
 )
+
+
+JUMP_COUNT_RULES_UNWOUND = [r for r in JUMP_COUNT_RULES if not isinstance(r, LoopContracts)] + [
+    Rule(r"for \((\w+) (\w+) : (\w+)\)", r"for (size_t rf_ = 0; rf_ < sizeof(\3) / sizeof(\3[0]); ++rf_) for (\1 \2 = \3[rf_], *once_ = &\2; once_; once_ = 0)", "*",
+         note="range-for over a built-in array, by value -> index loop + single-iteration loop declaring the element copy"),
+]
+
+
+def build_jump_count_unwound(ctx):
+    """Same function, NO contracts and no loop contracts: a plain harness over ALL 64-bit counts with the loops unwound to the operand width (<= 32 base-4 digits,
+    <= 3 jumps per digit).  With unwinding assertions on this is a complete proof, and it does not depend on how the loops are structured."""
+    pc = ctx.func(ENG, r"XorwowRngEngine::jump\(ull_int count, ArrayJumpPoly const& jump_poly_arr\)", JUMP_COUNT_RULES_UNWOUND, name="XorwowRngEngine::jump(count, table)")
+    return (HDR + """
+typedef unsigned __int128 u128;
+u128 g_exp;                      /* ghost: total power of the table's base step applied so far */
+ArrayJumpPoly const* g_table;
+/* jump(JumpPoly) as used with a table row (c13_jump_poly + row lemmas): T^(base * 4^idx); here: record the exponent, check the row comes from the table */
+static void XE_jump_poly(XorwowRngEngine* self, JumpPoly const* jump_poly)
+{
+    __CPROVER_assert(__CPROVER_same_object(jump_poly, g_table) && __CPROVER_POINTER_OFFSET(jump_poly) % sizeof(JumpPoly) == 0 && (size_t)__CPROVER_POINTER_OFFSET(jump_poly) / sizeof(JumpPoly) < 32, "XE_jump_poly.precondition: polynomial is row idx < 32 of the table");
+    g_exp += (u128)1 << (2 * ((size_t)__CPROVER_POINTER_OFFSET(jump_poly) / sizeof(JumpPoly)));
+}
+static void XE_jump_count(XorwowRngEngine* self, ull_int count, ArrayJumpPoly const* jump_poly_arr)
+{""" + pc.body + """}
+void h_jump_count(void)
+{
+    XorwowState st; XorwowRngEngine e; e.state_ = &st; ArrayJumpPoly tab; ull_int count;
+    g_exp = 0;
+    XE_jump_count(&e, count, &tab);
+    __CPROVER_assert(g_exp == count, "jump_count.exponent: the polynomials applied amount to exactly `count` base steps");
+    VERIF_CANARY();
+}
+""")
 
 
 def piece_jump_count(ctx):
@@ -637,6 +670,9 @@ UNITS = [
          must_have=[r"XE_jump_count.postcondition", r"loop_invariant_step", r"loop_decreases", r"celer_assert", r"XE_jump_poly.precondition"],
          checks=["--bounds-check", "--pointer-check"],
          replay=REPLAY_SKIP, note="jump(count, table): sum of base-4 digits times 4^idx equals count (ghost exponent), every polynomial comes from the table at idx < 32; unbounded loop-contract proof"),
+    Unit("c13_jump_count_unwound", build_jump_count_unwound, "h_jump_count", unwind=34, timeout=1800, backend=["sat", "kissat"],
+         must_have=[r"jump_count.exponent", r"unwinding assertion", r"celer_assert", r"XE_jump_poly.precondition"], checks=["--bounds-check", "--pointer-check"],
+         replay=REPLAY_SKIP, note="jump(count, table), structure-independent variant: all loops unwound to the operand width (complete; unwinding assertions on), same contract as c13_jump_count"),
     Unit("c13_discard", build_discard, "h_discard", enforce="XE_discard", replace=["XE_jump_count"], timeout=300, backend="z3",
          must_have=[r"XE_discard.postcondition", r"XE_jump_count.precondition"], checks=["--bounds-check", "--pointer-check"],
          replay=REPLAY_SKIP, note="discard(count): xor part advanced by count single steps (contract of jump(count,table) with the step table), Weyl value advanced by count*362437 mod 2^32 for every 64-bit count"),
@@ -663,3 +699,43 @@ UNITS = [
          must_have=[r"canon_float.postcondition"], replay=REPLAY_CF, checks=["--bounds-check", "--pointer-check"],
          note="GenerateCanonical32<float>: in [0,1), one draw"),
 ] + [row_unit("P", i, "quick") for i in range(32)] + [row_unit("S", i, "quick") for i in range(32)]
+
+
+# ---------------------------------------------------------------------------
+# GenerateCanonical<XorwowRngEngine, RealType> (the specialisation every sampler goes through)
+# ---------------------------------------------------------------------------
+def build_canon_spec(T):
+    def build(ctx):
+        pc = ctx.func("src/celeritas/random/XorwowRngEngine.hh", r"CELER_FORCEINLINE_FUNCTION result_type operator\(\)\(XorwowRngEngine& rng\)", [
+            Rule(r"GenerateCanonical32<RealType>\(\)\(rng\)", "GC32_%s(rng)" % T, "*", note="detail::GenerateCanonical32<RealType> with RealType bound -> contract (c13_canon_%s)" % T),
+            Rule(r"GenerateCanonical32<(float|double)>\(\)\(rng\)", r"GC32_\1(rng)", "*", note="detail::GenerateCanonical32<T> -> contract (c13_canon_float / c13_canon_double)"),
+        ], name="GenerateCanonical<XorwowRngEngine, %s>::operator()" % T)
+        one = "1.0f" if T == "float" else "1.0"
+        return ('#include "celer.h"\n' + """
+typedef %s RealType; typedef RealType result_type; typedef struct XorwowRngEngine XorwowRngEngine;
+unsigned g_draws;
+/* detail::GenerateCanonical32<float/double>: values in [0, 1), one / two engine draws (contracts enforced in c13_canon_float / c13_canon_double) */
+float GC32_float(XorwowRngEngine* rng) __CPROVER_assigns(g_draws) __CPROVER_ensures(__CPROVER_return_value >= 0.0f && __CPROVER_return_value < 1.0f && g_draws == __CPROVER_old(g_draws) + 1);
+double GC32_double(XorwowRngEngine* rng) __CPROVER_assigns(g_draws) __CPROVER_ensures(__CPROVER_return_value >= 0.0 && __CPROVER_return_value < 1.0 && g_draws == __CPROVER_old(g_draws) + 2);
+result_type GCX_call(XorwowRngEngine* rng)
+__CPROVER_requires(g_draws == 0)
+__CPROVER_assigns(g_draws)
+/* canonical reals of the requested precision lie in [0, 1): never exactly 1 */
+__CPROVER_ensures(__CPROVER_return_value >= 0 && __CPROVER_return_value < %s)
+{""" % (T, one) + pc.body + """}
+void h_gcx(void)
+{
+    XorwowRngEngine* e;
+    GCX_call(e);
+    VERIF_CANARY();
+}
+""")
+    return build
+
+
+UNITS += [
+    Unit("c13_canon_spec_%s" % T, build_canon_spec(T), "h_gcx", enforce="GCX_call", replace=["GC32_float", "GC32_double"], timeout=120, backend=["sat", "cvc5"],
+         must_have=[r"GCX_call.postcondition"], assumptions=["detail::GenerateCanonical32<T> by its contract (c13_canon_%s)" % T],
+         note="GenerateCanonical<XorwowRngEngine, %s>::operator(): the value handed to every sampler lies in [0, 1)" % T)
+    for T in ("float", "double")
+]
